@@ -13,12 +13,13 @@
    S3    patch_jump_here q: patch_code = None    RPanic    UNREACHABLE unconditionally: invariant "q is the start
                                                            of a jump instruction" (jump_at), preserved by
                                                            appending and by patching (patch_code_complete)
-   S4    handle_from_bytes_m bs: hash = 0 and    RPanic    REACHABLE in debug builds; excluded by the domain
-         cs_debug (debug_assert in from_bytes)             (hash_ok: index paths via card_label / index_handle,
-                                                           global names, native names)
-   S5    label_insert_here h: h = 0 (unwrap of   RPanic    REACHABLE (release too); excluded by the domain
-         Err(InvalidHandle)) or 2^32 <= pc                 (fi_handle <> 0 for non-main functions, closure
-                                                           handle <> 0; pc by the size bound)
+   S4    handle_from_bytes_m bs: hash = 0 and    -         GONE since 3f22e7c "handles are never 0": the
+         cs_debug (debug_assert in from_bytes)             debug_assert was removed, a hash of 0 becomes 1 (was
+                                                           REACHABLE in debug builds: findings N-C04-1, N-C04-2)
+   S5    label_insert_here h: h = 0 (unwrap of   RPanic    h = 0 UNREACHABLE since 3f22e7c (was REACHABLE in every
+         Err(InvalidHandle)) or 2^32 <= pc                 build, N-C04-3): closure labels are Handle + Handle
+                                                           (handle_add_neq), function labels Handle::from_u64
+                                                           (into_ir_stream_nz); pc by the size bound
    S6    label_entry_here: 2^32 <= pc            RPanic    excluded by the size bound of the domain (fs_cost)
    S7    push_string: string of >= 2^32 bytes    RPanic    excluded by the size bound of the domain (fs_cost)
    --    panic / diverge (the monad primitives)            only used at S1 (diverge); panic is unused
@@ -26,12 +27,14 @@
    Main results: super_depth_total, ht_entry_never_hangs, patch_code_complete, compile_never_diverges
    (unconditional), compile_total (on module_in_domain).
 
-   The domain (module_in_domain, decidable) only excludes S4-S7: a size bound (fs_cost, a structural
-   over-approximation of the emitted bytes and of every pushed string, below 2^32), non-zero handles of
-   the non-main functions and of the closures (S5) and, in debug builds only, non-zero FNV hashes of
-   the index paths, of the native names and of the names that can be looked up as globals (S4).  It
-   does not assume valid names, matching arities, a main function, resolvable calls or imports: all
-   of these come out as CErr.
+   The domain (module_in_domain, decidable) only excludes S5(pc)-S7: a size bound (fs_cost, a structural
+   over-approximation of the emitted bytes and of every pushed string, below 2^32).  Until 3f22e7c it
+   also required non-zero handles of the non-main functions and of the closures (S5) and, in debug
+   builds, non-zero FNV hashes of the index paths, of the native names and of the names that can be
+   looked up as globals (S4); those conditions are theorems now (hash_ok_always, card_dom_always,
+   into_ir_stream_nz) and compile_total is stated on the smaller domain.  It does not assume valid
+   names, matching arities, a main function, resolvable calls or imports: all of these come out as
+   CErr.
 
    Proof: a Hoare logic [np dbg fh js c idx idx' m Q] with total-correctness flavour over the state
    monad: from a state satisfying Inv3 (pc = byte length of the code, <= 255 locals / upvalues per
@@ -66,6 +69,7 @@ Proof.
       injection H as <- <-. specialize (IH _ _ eq_refl). cbn [length]. lia.
 Qed.
 
+(* super_depth since 4a89bbc: whole leading "super." prefixes (strip_prefix), 6 bytes a round *)
 Lemma super_depth_go_total : forall fuel s cnt,
   (length s < fuel)%nat -> super_depth_go fuel s cnt <> None.
 Proof.
@@ -365,11 +369,13 @@ Qed.
 (* ================================================================== the domain *)
 (* bytes hashed by CardIndex::sub_handle for the index path [idx] (newest index first) *)
 Definition path_bytes (idx : list N) : list N := flat_map (fun i => le_bytes 4 (i mod two32)) (rev idx).
-(* Handle::from_bytes does not trip its debug_assert *)
+(* "Handle::from_bytes does not trip its debug_assert": until 3f22e7c a condition of the domain (S4); since
+   then handles are never 0 and the predicate holds of every byte string (hash_ok_always).  It survives, with
+   [card_dom] / [fn_dom] below, as the internal invariant the Hoare logic threads through process_card. *)
 Definition hash_ok (dbg : bool) (bs : list N) : bool := negb dbg || negb (handle_of_bytes bs =? 0).
 (* the label of the closure compiled at path [idx] of the function with handle [fh] *)
 Definition closure_handle (fh : N) (idx : list N) : N :=
-  N.lxor (N.lxor fh (handle_of_bytes (path_bytes idx))) (handle_from_u64 closure_mask).
+  handle_add (handle_add fh (handle_of_bytes (path_bytes idx))) (handle_from_u64 closure_mask).
 (* the part of a variable path that read_var_card hashes when it resolves to a global *)
 Definition var_head (v : str) : str :=
   match split_once_c c_dot v with Some (v0, _) => v0 | None => v end.
@@ -415,8 +421,9 @@ Section CardDom.
 End CardDom.
 
 (* over-approximation of the bytes process_card emits.  One constant per node: the largest fixed
-   emission is a closure (4 instructions <= 21 bytes, scope_end <= 255 one-byte pops, emit_upvalues
-   <= 255 * 4 bytes = 1383) or a loop (Repeat: 15 instructions, one 5-byte jump, two scope_ends = 830);
+   emission is a closure (4 instructions <= 21 bytes, scope_end <= 255 pops of <= 5 bytes (CloseUpvalue
+   carries a u32 since d723a2c), emit_upvalues <= 255 * 4 bytes: 2400) or a loop (Repeat: 15 instructions,
+   one 5-byte jump, two scope_ends: 2870);
    a list child costs 3 more instructions in an Array (64); a name that is read costs
    <= 5 + 6 bytes per '.'-separated segment plus its length (it is also a bound for S7) *)
 Definition node_cost : N := 4096.
@@ -452,15 +459,13 @@ Fixpoint fs_cost (fs : list function_ir) : N :=
 Definition fn_dom (dbg : bool) (f : function_ir) : bool :=
   subs_all (card_dom dbg (fi_handle f)) [] (fi_cards f) 0.
 
+(* the domain since 3f22e7c: the size bound only (S5 pc, S6, S7).  [dbg] is kept in the signature (the build
+   profile no longer matters to the domain). *)
 Definition fs_in_domain (dbg : bool) (fs : list function_ir) : bool :=
-  (fs_cost fs + node_cost <? two32) &&                                            (* S5, S6, S7: sizes *)
-  forallb (fn_dom dbg) fs &&
-  match fs with
-  | [] => true
-  | main :: others =>
-      hash_ok dbg (path_bytes [N.of_nat (length (fi_cards main)) mod two32]) &&   (* S4: the final Exit *)
-      forallb (fun g => negb (fi_handle g =? 0)) others                          (* S5: function labels *)
-  end.
+  fs_cost fs + node_cost <? two32.
+(* what the proof needs besides: every card satisfies card_dom (card_dom_always) and the functions of
+   into_ir_stream carry non-zero handles (into_ir_stream_nz) *)
+Definition handles_nz (fs : list function_ir) : Prop := Forall (fun f => fi_handle f <> 0) fs.
 
 Definition module_in_domain (M : module) (o : options) : bool :=
   match into_ir_stream M (o_recursion_limit o) with
@@ -621,20 +626,22 @@ Proof.
   cbn. repeat split; auto.
 Qed.
 
-Lemma hash_ok_spec dbg bs : hash_ok dbg bs = true -> (handle_of_bytes bs =? 0) && dbg = false.
-Proof. unfold hash_ok. destruct dbg, (handle_of_bytes bs =? 0); cbn; auto. Qed.
+Lemma hash_ok_always dbg bs : hash_ok dbg bs = true.
+Proof.
+  unfold hash_ok. destruct (N.eqb_spec (handle_of_bytes bs) 0) as [E|E]; [|apply orb_true_r].
+  exfalso. exact (handle_of_bytes_neq bs E).
+Qed.
 
 (* S4 *)
 Lemma np_hfb dbg fh js idx bs :
   hash_ok dbg bs = true ->
   np dbg fh js 0 idx idx (handle_from_bytes_m bs) (fun h => h = handle_of_bytes bs).
 Proof.
-  intros H. nocode. unfold handle_from_bytes_m. cbv zeta. rewrite Hd, (hash_ok_spec _ _ H).
-  nocode_done HI.
+  intros _. nocode. unfold handle_from_bytes_m. nocode_done HI.
 Qed.
 Lemma np_index_handle dbg fh js idx :
   hash_ok dbg (path_bytes idx) = true ->
-  np dbg fh js 0 idx idx index_handle (fun h => h = N.lxor fh (handle_of_bytes (path_bytes idx))).
+  np dbg fh js 0 idx idx index_handle (fun h => h = handle_add fh (handle_of_bytes (path_bytes idx))).
 Proof.
   intros H. unfold index_handle. apply np_get_bind. intros s0 _ Hf0 Hi0. rewrite Hf0, Hi0.
   fold (path_bytes idx). apply np_cost with (c := 0 + 0); [|lia].
@@ -761,25 +768,26 @@ Proof.
   nocode_done HI.
 Qed.
 
+(* d723a2c: the CloseUpvalue of scope_end has a u32 operand: 5 bytes (Pop stays 1 byte) *)
 Lemma np_push_raws dbg fh js idx is :
-  Forall (fun i => spanN i = 1) is ->
-  np dbg fh js (N.of_nat (length is)) idx idx (push_raws is) (fun _ => True).
+  Forall (fun i => spanN i <= 5) is ->
+  np dbg fh js (5 * N.of_nat (length is)) idx idx (push_raws is) (fun _ => True).
 Proof.
   induction 1 as [|i r Hi _ IH]; cbn [push_raws length]; [apply np_ret_T|].
-  eapply np_cost; [eapply np_bind; [apply np_push_instr_c with (c := 1); lia | intros _ _; exact IH]|]. lia.
+  eapply np_cost; [eapply np_bind; [apply np_push_instr_c with (c := 5); lia | intros _ _; exact IH]|]. lia.
 Qed.
 
 Lemma pop_locals_instrs rls d :
-  Forall (fun i => spanN i = 1) (snd (pop_locals rls d)) /\
+  Forall (fun i => spanN i <= 5) (snd (pop_locals rls d)) /\
   (length (snd (pop_locals rls d)) <= length rls)%nat.
 Proof.
   induction rls as [|l r IH]; cbn [pop_locals]; [split; [constructor | cbn; lia]|].
   destruct (d <? l_depth l)%Z; [|split; [constructor | cbn; lia]].
   destruct (pop_locals r d) as [r' is]. cbn [snd length] in *. destruct IH as [IH1 IH2].
-  split; [|lia]. constructor; auto. destruct (l_captured l); reflexivity.
+  split; [|lia]. constructor; auto. destruct (l_captured l); vm_compute; discriminate.
 Qed.
 
-Lemma np_scope_end dbg fh js idx : np dbg fh js 255 idx idx scope_end (fun _ => True).
+Lemma np_scope_end dbg fh js idx : np dbg fh js 1275 idx idx scope_end (fun _ => True).
 Proof.
   intros s HI Hd Hf Hi Hj Hc. unfold scope_end.
   set (ds := map_hd _ (cs_depth s)). set (rlis := pop_locals _ _). set (s1 := set_scopes _ _ _ s).
@@ -793,10 +801,11 @@ Proof.
     rewrite rev_length. subst rlis. cbn [hd].
     pose proof (pop_locals_length (rev ls) (hd 0%Z ds)) as H. rewrite rev_length in H. lia. }
   pose proof (np_push_raws dbg fh js idx (snd rlis) Hsp s1 HI1 Hd Hf Hi Hj) as H.
-  assert (Hc1 : cs_pc s1 + N.of_nat (length (snd rlis)) < two32) by (cbn; lia).
+  assert (Hc1 : cs_pc s1 + 5 * N.of_nat (length (snd rlis)) < two32).
+  { change (cs_pc s1) with (cs_pc s). lia. }
   specialize (H Hc1). destruct (push_raws (snd rlis) s1) as [a s2| | |]; auto.
   destruct H as (H1 & H2 & H3 & H4 & H5 & H6 & H7 & H8).
-  np_split; auto. cbn in H7. lia.
+  np_split; auto. change (cs_pc s1) with (cs_pc s) in H7. lia.
 Qed.
 
 Lemma np_emit_upvalues_len dbg fh js idx ups :
@@ -1170,13 +1179,95 @@ Proof.
 Qed.
 
 Lemma tp_compile_others dbg fs :
-  forallb (fn_dom dbg) fs = true -> forallb (fun g => negb (fi_handle g =? 0)) fs = true ->
+  forallb (fn_dom dbg) fs = true -> handles_nz fs ->
   tp dbg (fs_cost fs) (compile_others fs).
 Proof.
   induction fs as [|f r IH]; intros H1 H2; cbn [compile_others fs_cost forallb] in *; [apply tp_ret|].
-  apply andb_true_iff in H1. destruct H1 as [H1 H1r]. apply andb_true_iff in H2. destruct H2 as [H2 H2r].
-  apply negb_true_iff, N.eqb_neq in H2.
+  apply andb_true_iff in H1. destruct H1 as [H1 H1r]. inversion H2 as [|? ? H2f H2r]; subst.
   apply tp_bind; [apply tp_compile_other; assumption | intros _; apply IH; assumption].
+Qed.
+
+(* ---- every card is in the (former) hash domain ---- *)
+Lemma subs_all_always (f : list N -> card -> bool) l :
+  Forall (fun c => forall idx, f idx c = true) l -> forall idx i, subs_all f idx l i = true.
+Proof.
+  induction 1 as [|x r Hx _ IH]; intros idx i; cbn [subs_all]; [reflexivity|].
+  rewrite Hx, IH. reflexivity.
+Qed.
+Lemma card_dom_always dbg fh c : forall idx, card_dom dbg fh idx c = true.
+Proof.
+  induction c using card_ind'; intros idx; cbn [card_dom]; rewrite ?hash_ok_always; cbn [andb];
+    rewrite ?IHc, ?IHc1, ?IHc2, ?IHc3; cbn [andb]; auto;
+    try (apply subs_all_always; assumption).
+  - (* CSetVar *) destruct (rsplit_once_c c_dot n) as [[rp sp]|]; [rewrite hash_ok_always|]; reflexivity.
+  - (* CClosure *)
+    destruct (N.eqb_spec (closure_handle fh idx) 0) as [E|E]; [exfalso; exact (handle_add_neq _ _ E)|].
+    cbn [negb andb]. apply subs_all_always; assumption.
+Qed.
+Lemma fn_dom_always dbg f : fn_dom dbg f = true.
+Proof.
+  unfold fn_dom. apply subs_all_always. apply Forall_forall. intros c _ idx. apply card_dom_always.
+Qed.
+
+(* ---- the function handles of into_ir_stream are Handle::from_u64(i): never 0 ---- *)
+Lemma flatten_functions_nz fs : forall fid ns imports out n out' n',
+  handles_nz out -> flatten_functions fs fid ns imports out n = inr (out', n') -> handles_nz out'.
+Proof.
+  induction fs as [|[name f] r IH]; intros fid ns imports out n out' n' Ho H; cbn [flatten_functions] in H.
+  - injection H as <- <-. exact Ho.
+  - destruct (negb (is_name_valid name)); [discriminate|].
+    eapply IH; [|exact H]. constructor; [|exact Ho]. cbn [fi_handle].
+    apply handle_from_u64_neq.
+Qed.
+Section ModuleInd.
+  Variable P : module -> Prop.
+  Hypothesis Hm : forall subs funs imps, Forall (fun nm => P (snd nm)) subs -> P (Module subs funs imps).
+  Fixpoint module_ind' (m : module) : P m :=
+    match m with
+    | Module subs funs imps =>
+        Hm subs funs imps
+           ((fix all (l : list (str * module)) : Forall (fun nm => P (snd nm)) l :=
+               match l with
+               | [] => Forall_nil _
+               | nm :: r => Forall_cons nm (module_ind' (snd nm)) (all r)
+               end) subs)
+    end.
+End ModuleInd.
+Lemma flatten_module_nz m : forall limit ns out n out' n',
+  handles_nz out -> flatten_module m limit ns out n = inr (out', n') -> handles_nz out'.
+Proof.
+  induction m as [subs funs imps IHs] using module_ind'.
+  intros limit ns out n out' n' Ho H. cbn [flatten_module] in H.
+  destruct (limit <=? N.of_nat (length ns)); [discriminate|].
+  destruct (execute_imports imps []) as [e|imports]; [discriminate|].
+  destruct (flatten_functions funs 0 ns imports out n) as [e|[out1 n1]] eqn:Ef; [discriminate|].
+  pose proof (flatten_functions_nz _ _ _ _ _ _ _ _ Ho Ef) as H1. clear Ef Ho.
+  revert out1 n1 H1 H. induction IHs as [|[name sub] r Hsub _ IHr]; intros out1 n1 H1 H.
+  - injection H as <- <-. exact H1.
+  - cbn [snd] in Hsub.
+    destruct (flatten_module sub limit (ns ++ [name]) out1 n1) as [e|[out2 n2]] eqn:Es; [discriminate|].
+    eapply IHr; [|exact H]. eapply Hsub; eauto.
+Qed.
+Lemma handles_nz_upd l i f : handles_nz l -> fi_handle f <> 0 -> handles_nz (upd l i f).
+Proof.
+  intros Hl Hf. revert i. induction Hl as [|x r Hx Hr IH]; intros [|i]; cbn [upd]; constructor; auto.
+  apply IH.
+Qed.
+Lemma into_ir_stream_nz M limit fs : into_ir_stream M limit = inr fs -> handles_nz fs.
+Proof.
+  destruct M as [subs funs imps]. unfold into_ir_stream.
+  destruct (ensure_invariants _); [discriminate|].
+  destruct (find_index _ funs 0) as [mi|]; [|discriminate].
+  destruct (flatten_module _ limit [] [] 0) as [e|[out n]] eqn:Ef; [discriminate|].
+  intros H. injection H as <-.
+  assert (Hr : handles_nz (rev out)).
+  { apply Forall_rev. eapply flatten_module_nz; [|exact Ef]. constructor. }
+  unfold swap0. destruct (rev out) as [|x0 l] eqn:El; [constructor|].
+  destruct (nth_error (x0 :: l) mi) as [xi|] eqn:En; [|exact Hr].
+  assert (Hxi : fi_handle xi <> 0).
+  { unfold handles_nz in Hr. rewrite Forall_forall in Hr. apply Hr. eapply nth_error_In; eauto. }
+  assert (Hx0 : fi_handle x0 <> 0) by (inversion Hr; assumption).
+  apply handles_nz_upd; [apply handles_nz_upd|]; assumption.
 Qed.
 
 Lemma tp_add_function dbg f : tp dbg 0 (add_function f).
@@ -1192,13 +1283,14 @@ Proof.
 Qed.
 
 Lemma tp_compile_ir dbg fs :
-  fs_in_domain dbg fs = true -> tp dbg (fs_cost fs + node_cost) (compile_ir fs).
+  handles_nz fs -> tp dbg (fs_cost fs + node_cost) (compile_ir fs).
 Proof.
-  intros H. unfold fs_in_domain in H.
-  apply andb_true_iff in H. destruct H as [H H3]. apply andb_true_iff in H. destruct H as [_ H2].
+  intros Hnz.
   destruct fs as [|f r]; [intros s _ _ _; exact I|].
-  apply andb_true_iff in H3. destruct H3 as [Hh Hr].
-  cbn [forallb] in H2. apply andb_true_iff in H2. destruct H2 as [Hf Hfr].
+  inversion Hnz as [|? ? _ Hr]; subst.
+  pose proof (hash_ok_always dbg (path_bytes [N.of_nat (length (fi_cards f)) mod two32])) as Hh.
+  pose proof (fn_dom_always dbg f) as Hf.
+  assert (Hfr : forallb (fn_dom dbg) r = true) by (apply forallb_forall; intros g _; apply fn_dom_always).
   unfold compile_ir. apply tp_cost with (c := 0 + ((fn_cost f + fs_cost r) + (0 + 21))).
   2:{ cbn [fs_cost]. unfold node_cost. lia. }
   apply tp_bind; [apply tp_stage_1 | intros _].
@@ -1223,11 +1315,11 @@ Theorem compile_total : forall (M : module) (o : options),
   module_in_domain M o = true -> compile M o <> CPanic /\ compile M o <> CDiverge.
 Proof.
   intros M o H. unfold module_in_domain in H. unfold compile.
-  destruct (into_ir_stream M (o_recursion_limit o)) as [e|fs]; [split; discriminate|].
-  pose proof (tp_compile_ir (o_debug o) fs H (init_state (o_debug o)) (Inv3_init _) eq_refl) as T.
+  destruct (into_ir_stream M (o_recursion_limit o)) as [e|fs] eqn:Eir; [split; discriminate|].
+  pose proof (tp_compile_ir (o_debug o) fs (into_ir_stream_nz _ _ _ Eir)
+                            (init_state (o_debug o)) (Inv3_init _) eq_refl) as T.
   assert (Hc : cs_pc (init_state (o_debug o)) + (fs_cost fs + node_cost) < two32).
-  { unfold fs_in_domain in H. apply andb_true_iff in H. destruct H as [H _].
-    apply andb_true_iff in H. destruct H as [H _]. apply N.ltb_lt in H. cbn [cs_pc init_state]. lia. }
+  { unfold fs_in_domain in H. apply N.ltb_lt in H. cbn [cs_pc init_state]. lia. }
   specialize (T Hc).
   destruct (compile_ir fs (init_state (o_debug o))); [split; discriminate | split; discriminate | |];
     contradiction.
